@@ -266,6 +266,19 @@ func execC17(t *testing.T, c C17Case) (v Verdict) {
 			}
 			c1.A.ReadAvailable() // discard what the probe write may have delivered
 			honest("after re-attachment")
+			// the old connection's failure is reported to the disconnect callback whether or not a newer
+			// connection had taken over the name by then
+			w.mu.Lock()
+			reported := 0
+			for _, d := range w.disconnects {
+				if d == "c1" {
+					reported++
+				}
+			}
+			w.mu.Unlock()
+			if reported == 0 {
+				v.failf("reattach (old connection fails %s re-attachment, on %s): the failed connection was never reported to the disconnect callback", map[bool]string{true: "before", false: "after"}[c.OldFailsFirst], c.FailKind)
+			}
 		case "attach-race":
 			// peers attach at the very moment the first envelope for their name arrives (no quiescent point in
 			// between); whatever happens to that first envelope, the attached connection must be the one that
